@@ -737,8 +737,17 @@ class Executor:
             else:
                 others.append((cond, StopR(o.outcome[1], o.outcome[2])))
         merged = merge_vals(rets) if rets else None
-        if rets and merged is None: return None
         alts = list(others)
+        if rets and merged is None:
+            # results of different enum variants (Ok / Err, Some / None): one merged value per variant, forked by variant
+            if not all(isinstance(v, Enum) for _, v in rets): return None
+            groups = {}
+            for c, v in rets: groups.setdefault((v.variant, len(v.fields)), []).append((c, v))
+            for g in groups.values():
+                mg = merge_vals(g)
+                if mg is None: return None
+                alts.append((b_or(*[c for c, _ in g]), mg))
+            return Fork(alts)
         if rets: alts.append((b_or(*[c for c, _ in rets]), merged))
         if len(alts) == 1 and not others: return merged
         return Fork(alts)
